@@ -76,9 +76,41 @@ def corpus_traces():
             if fn.endswith('.json'):
                 try: obj = json.load(open(os.path.join(d, fn)))
                 except Exception: continue
-                if obj.get('suite') == 'wrapper':
+                if obj.get('suite') == 'wrapper' and 'ops' in obj and not obj.get('probe'):
                     res.append(obj)
     return res
+
+
+def dispatch_probe():
+    """C05, last clause ("... however maxsize is passed"): every bounded decorator class of both modules, with maxsize 0 / None / n given
+    POSITIONALLY, must behave as when it is given by keyword (0 keeps nothing resident, None never evicts, n bounds the cache)"""
+    import klepto, klepto.safe
+    viols = []; n = 0
+    for mod in (klepto, klepto.safe):
+        for algo in ('lfu', 'lru', 'mru', 'rr'):
+            C = getattr(mod, algo + '_cache')
+            for ms in (0, None, 1, 3):
+                for how in ('positional', 'keyword', 'positional+keywords'):
+                    n += 1
+                    name = '%s.%s_cache(%s)' % (mod.__name__, algo, {'positional': repr(ms), 'keyword': 'maxsize=%r' % (ms,), 'positional+keywords': '%r, purge=False' % (ms,)}[how])
+                    try:
+                        dec = C(ms) if how == 'positional' else (C(maxsize=ms) if how == 'keyword' else C(ms, purge=False))
+                        f = dec(lambda x: x * 2)
+                        sizes = []
+                        for x in (1, 2, 3, 1, 4, 5, 6):
+                            assert f(x) == x * 2
+                            sizes.append(len(f.__cache__()))
+                        info = f.info()
+                        if ms == 0: ok = max(sizes) == 0 and info.maxsize == 0
+                        elif ms is None: ok = sizes[-1] == 6 and info.maxsize is None
+                        else: ok = max(sizes) <= ms and info.maxsize == ms
+                        if not ok:
+                            viols.append(dict(prop='C05', sig=dict(kind='maxsize-dispatch', how=how, maxsize=repr(ms)), probe='dispatch', i=0, cfg=dict(decorator=name), ops=[],
+                                              msg='%s: sizes after each of seven calls %r, info %r' % (name, sizes, tuple(info))))
+                    except Exception as e:
+                        viols.append(dict(prop='C05', sig=dict(kind='maxsize-dispatch', how=how, maxsize=repr(ms)), probe='dispatch', i=0, cfg=dict(decorator=name), ops=[],
+                                          msg='%s raised %s: %s' % (name, type(e).__name__, str(e)[:80])))
+    return viols, n
 
 
 def explore(prop, tier):
@@ -88,6 +120,9 @@ def explore(prop, tier):
     errors = [t['err'] for t in trs if t['err']]
     trs = [t for t in trs if not t['err']]
     divs, viols, tags, nontriv = _analyse(prop, trs)
+    if prop == 'C05':
+        pv, pn = dispatch_probe()
+        viols += pv; tags['maxsize-dispatch-probe'] = pn
     hist = collections.Counter()
     for t in trs:
         c = t['cfg']
@@ -102,6 +137,9 @@ def explore(prop, tier):
 
 
 def replay(prop, obj):
+    if obj.get('probe') == 'dispatch':
+        pv, _ = dispatch_probe()
+        return dict(violations=[dict(prop=v['prop'], sig=v['sig'], msg=v['msg'], i=0) for v in pv if v['cfg'] == obj['cfg']], divergence=None)
     tr = sw.run_trace(obj['cfg'], obj['ops'])
     if tr['err']:
         raise NoVerdict('replay failed to run: ' + tr['err'])
@@ -122,6 +160,9 @@ def _still_fails(prop, cfg, sig):
 
 
 def shrink_and_save(prop, v):
+    if v.get('probe'):
+        return write_replay(prop, 'violation', dict(suite='wrapper', property=prop, probe=v['probe'], cfg=v['cfg'], signature=v['sig'], message=v['msg'],
+                                                     how_to_replay='cd /verif && ./check %s --replay <this file>' % prop))
     cfg, ops = v['cfg'], v['ops'][:v['i'] + 1]
     fails = _still_fails(prop, cfg, v['sig'])
     if fails(ops):
